@@ -429,7 +429,7 @@ fn compaction_pass(
     store.set_faults(&[]);
     let fault_text = match fault {
         Some((i, f)) => format!(
-            "\n    injected read fault {:?} on call {}",
+            "\n    injected fault {:?} on call {}",
             f,
             store.calls().get(i).map(|c| c.short()).unwrap_or_default()
         ),
@@ -452,8 +452,20 @@ fn compaction_pass(
             ctx.label("checkpoint");
         }
     }
-    let res = match res {
-        Ok(r) => r,
+    /// what the compaction did to the manifest
+    struct Done {
+        removed_ids: Vec<u64>,
+        created: Option<(u64, String)>,
+        tombstones_removed: u64,
+        reported: String,
+    }
+    let res: Done = match res {
+        Ok(r) => Done {
+            removed_ids: r.segments_removed.iter().map(|s| s.id).collect(),
+            created: r.segment_created.as_ref().map(|s| (s.id, s.key.clone())),
+            tombstones_removed: r.tombstones_removed,
+            reported: "Ok".into(),
+        },
         Err(e) => {
             let nothing = matches!(e, CompactionError::NothingToCompact);
             if !nothing && fault.is_none() {
@@ -462,24 +474,42 @@ fn compaction_pass(
             if first && fault.is_none() {
                 ctx.label("nothing_to_compact");
             }
-            if let Some(key) = same_state(&before.state, &after.state) {
-                return Err(format!(
-                    "compact() returned Err({}) but key {} changed: before {} after {}{}\n{}",
-                    e,
-                    key,
-                    short(&peer_opt(before.state.get(&key))),
-                    short(&peer_opt(after.state.get(&key))),
-                    fault_text,
-                    describe_layout(&env_view, &before)
-                ));
+            // under "took effect but reported an error" the new manifest may be live although
+            // compact() returned Err: then the compaction is judged like a successful one
+            let before_ids: BTreeSet<u64> = before.manifest.segments.iter().map(|s| s.id).collect();
+            let after_ids: BTreeSet<u64> = after.manifest.segments.iter().map(|s| s.id).collect();
+            if before_ids == after_ids || fault.is_none() {
+                if let Some(key) = same_state(&before.state, &after.state) {
+                    return Err(format!(
+                        "compact() returned Err({}) but key {} changed: before {} after {}{}\n{}",
+                        e,
+                        key,
+                        short(&peer_opt(before.state.get(&key))),
+                        short(&peer_opt(after.state.get(&key))),
+                        fault_text,
+                        describe_layout(&env_view, &before)
+                    ));
+                }
+                return Ok(None);
             }
-            return Ok(None);
+            ctx.label("manifest_swapped_although_compact_reported_an_error");
+            Done {
+                removed_ids: before_ids.difference(&after_ids).cloned().collect(),
+                created: after
+                    .manifest
+                    .segments
+                    .iter()
+                    .find(|s| !before_ids.contains(&s.id))
+                    .map(|s| (s.id, s.key.clone())),
+                tombstones_removed: 0,
+                reported: format!("Err({})", e),
+            }
         }
     };
     if first && fault.is_none() {
         ctx.label("compacted");
     }
-    let removed_ids: Vec<u64> = res.segments_removed.iter().map(|s| s.id).collect();
+    let removed_ids: Vec<u64> = res.removed_ids.clone();
     let n_candidates = before
         .manifest
         .segments
@@ -550,10 +580,11 @@ fn compaction_pass(
     };
     att.compare(&after.state, None, ctx, &mut stats).map_err(|e| {
         format!(
-            "{}\n    compaction removed segments {:?}, created {:?}, dropped {} tombstones{}\n    layout:\n{}",
+            "{}\n    compact() -> {}; it removed segments {:?}, created {:?}, dropped {} tombstones{}\n    layout:\n{}",
             e,
+            res.reported,
             removed_ids,
-            res.segment_created.as_ref().map(|s| s.id),
+            res.created.as_ref().map(|c| c.0),
             res.tombstones_removed,
             fault_text,
             describe_layout(&env_view, &before)
@@ -572,14 +603,14 @@ fn compaction_pass(
     }
     // the new segment becomes a known input for the next pass
     let img = store.image();
-    if let Some(info) = &res.segment_created {
+    if let Some((id, key)) = &res.created {
         let data = img
-            .get(&info.key)
-            .ok_or_else(|| format!("compaction reported new segment {} which is not in the store", info.key))?;
+            .get(key)
+            .ok_or_else(|| format!("compaction reported new segment {} which is not in the store", key))?;
         let ds = redis_sim::streaming::SegmentReader::open(data)
             .and_then(|r| r.read_all())
-            .map_err(|e| format!("new segment {} unreadable: {}", info.key, e))?;
-        seg_deltas.insert(info.id, ds);
+            .map_err(|e| format!("new segment {} unreadable: {}", key, e))?;
+        seg_deltas.insert(*id, ds);
     }
     Ok(Some(img))
 }
@@ -667,21 +698,30 @@ fn check_read_faults(l: &Layout, ctx: &mut CaseCtx<'_>) -> Result<(), String> {
             }
         }
     }
-    // (b) compaction under a read fault on each of its gets; recovery afterwards is healthy
+    // (b) compaction with one faulty call, every call in turn: gets return an error or damaged
+    //     bytes; puts fail cleanly / half-written / AFTER the object was stored; renames and
+    //     deletes fail without or WITH effect. Recovery afterwards (healthy reads) must equal
+    //     recovery before, whatever compact() reported.
     let probe = TraceObjectStore::from_image(env.image.clone());
     {
         let arc = Arc::new(probe.clone());
         let mut c = compactor(&arc, l);
         let _ = run_now(c.compact());
     }
-    let gets: Vec<usize> = probe.calls().iter().filter(|c| c.op == OpKind::Get).map(|c| c.idx).collect();
-    if gets.len() >= 3 {
+    let calls = probe.calls();
+    if calls.len() >= 6 {
         ctx.nontrivial(l);
     }
-    for i in gets {
-        for f in read_fault_kinds() {
+    for c in &calls {
+        let kinds = match c.op {
+            OpKind::Get => read_fault_kinds(),
+            OpKind::Put => vec![Fault::Fail, Fault::PartialThenFail(500), Fault::EffectThenFail],
+            OpKind::Rename | OpKind::Delete => vec![Fault::Fail, Fault::EffectThenFail],
+            _ => vec![Fault::Fail],
+        };
+        for f in kinds {
             let mut seg_deltas = env.seg_deltas.clone();
-            compaction_pass(l, &env.image, &mut seg_deltas, Some((i, f)), false, ctx)?;
+            compaction_pass(l, &env.image, &mut seg_deltas, Some((c.idx, f)), false, ctx)?;
             evals += 1;
         }
     }
@@ -700,6 +740,10 @@ struct Inter {
     /// None = enumerate every interleaving; Some(word) = follow the word (true = compactor)
     /// wherever both tasks are enabled
     schedule: Option<Vec<bool>>,
+    /// transient fault on flush()'s manifest reload (its first store call), wherever the
+    /// schedule places it; with `schedule: None` both "no fault" and "fails once" are enumerated
+    #[serde(default)]
+    flush_fault: Option<Fault>,
 }
 
 struct InterOut {
@@ -721,6 +765,7 @@ fn run_schedule(
     img: &Image,
     l: &Layout,
     batch: &[ReplicationDelta],
+    flush_fault: Option<Fault>,
     mut choose: impl FnMut(usize) -> bool,
 ) -> Result<InterOut, String> {
     let store = TraceObjectStore::from_image(img.clone());
@@ -730,6 +775,9 @@ fn run_schedule(
         p.push(d.clone()).map_err(|e| e.to_string())?;
     }
     let mut c = compactor(&arc, l);
+    if let Some(f) = flush_fault {
+        store.set_task_faults(&[((TASK_FLUSH, 0), f)]);
+    }
     store.set_gated(true);
     let mut word = Vec::new();
     let mut both = Vec::new();
@@ -950,30 +998,37 @@ fn check_inter(case: &Inter, ctx: &mut CaseCtx<'_>) -> Result<(), String> {
     let mut overlapping = 0u64;
     match &case.schedule {
         Some(word) => {
-            let out = run_schedule(&env.image, l, &batch, |step| word.get(step).cloned().unwrap_or(true))?;
+            let out = run_schedule(&env.image, l, &batch, case.flush_fault, |step| word.get(step).cloned().unwrap_or(true))?;
             if check_one_schedule(&env, &before, l, &batch, &out, ctx)? {
                 overlapping += 1;
             }
             schedules += 1;
+            if case.flush_fault.is_some() {
+                ctx.label("flush_manifest_read_fault");
+            }
         }
         None => {
-            let mut prefix: Vec<bool> = Vec::new();
-            loop {
-                let out = run_schedule(&env.image, l, &batch, |step| prefix.get(step).cloned().unwrap_or(true))?;
-                if check_one_schedule(&env, &before, l, &batch, &out, ctx)? {
-                    overlapping += 1;
-                }
-                schedules += 1;
-                // depth-first: flip the last free choice that took the compactor
-                match (0..out.word.len()).rev().find(|&t| out.both[t] && out.word[t]) {
-                    Some(t) => {
-                        prefix = out.word[..t].to_vec();
-                        prefix.push(false);
+            for flush_fault in [None, Some(Fault::Fail)] {
+                let mut prefix: Vec<bool> = Vec::new();
+                loop {
+                    let out = run_schedule(&env.image, l, &batch, flush_fault, |step| prefix.get(step).cloned().unwrap_or(true))?;
+                    if check_one_schedule(&env, &before, l, &batch, &out, ctx)
+                        .map_err(|e| format!("{}\n    fault on flush()'s manifest reload: {:?}", e, flush_fault))?
+                    {
+                        overlapping += 1;
                     }
-                    None => break,
-                }
-                if schedules > 200_000 {
-                    return Err("more than 200000 interleavings: layout too large for enumeration".into());
+                    schedules += 1;
+                    // depth-first: flip the last free choice that took the compactor
+                    match (0..out.word.len()).rev().find(|&t| out.both[t] && out.word[t]) {
+                        Some(t) => {
+                            prefix = out.word[..t].to_vec();
+                            prefix.push(false);
+                        }
+                        None => break,
+                    }
+                    if schedules > 400_000 {
+                        return Err("more than 400000 interleavings: layout too large for enumeration".into());
+                    }
                 }
             }
             ctx.label("all_interleavings");
@@ -1155,6 +1210,7 @@ fn case_kf04() -> Inter {
         batch: vec![spec(2, Action::Set { val: 3, pad: 0 }, 1, 3)],
         // compactor loads the manifest, the flush runs completely, the compactor finishes
         schedule: Some(vec![true, false, false, false, false, true, true, true, true, true, true, true, true]),
+        flush_fault: None,
     }
 }
 
@@ -1177,6 +1233,7 @@ fn main() {
     s.assume("updates under one key have one CRDT type and distinct (time, replica) stamps (otherwise merge itself is order-dependent: C07)");
     s.assume("tombstone age: under the production-like clock every update of the layout is younger than the TTL (stamps are logical counters and carry no wall-clock time), so no tombstone may disappear; under the simulated clock the implementation's reading 'stamp = ms' defines age, and a tombstone older than the TTL may disappear iff no client-visible value comes back");
     s.assume("KF-C13-02/-03 are matched only when the compacted set equals what the documented selection rule (below-target segments, oldest id first, at most max_segments_per_compaction) picks from the manifest the compactor loaded (minus a segment it could not read under an injected read fault); a tombstone-drop difference with any other compacted set is a violation");
+    s.assume("third outcome per call (read_faults check, compaction's puts/renames/deletes): the operation TAKES EFFECT and still reports an error (timeout after commit): put = object fully stored + error; delete = object gone + error; rename = destination written, source still present + error (copy-then-delete as in the in-tree S3 store with the delete failing); if the manifest was swapped although compact() reported an error the compaction is judged like a successful one");
     s.assume("read faults: a get returns Ok with one byte XOR 0xFF (as SimulatedObjectStore corrupts) or with a prefix of the object, once; the stored object is intact. Other damage patterns (single bit flips inside JSON digits of the manifest, which has no checksum) are not injected");
     s.assume("the step scheduler interleaves at store-call granularity: between two store calls a task runs atomically (there is no other await point in compact()/flush())");
 
@@ -1206,7 +1263,7 @@ fn main() {
     );
 
     // ---- tier 1b
-    s.describe_check("read_faults", "every get of recover() and of compact() returning, once, an error / one flipped byte (7 positions) / a truncated object (5 lengths), the stored objects intact: recover() must fail or return the healthy state; compact() may skip or fail, the state recovered afterwards with healthy reads must equal the state before");
+    s.describe_check("read_faults", "one faulty store call, every call in turn: every get of recover() and compact() returns an error / one flipped byte (6 positions) / a truncated object (5 lengths) with the stored object intact; every put of compact() fails cleanly / half-written / after the object was stored; every rename and delete fails without or WITH effect (rename: destination written, source left). recover() must fail or return the healthy state; whatever compact() reports, the state recovered afterwards with healthy reads must equal the state before and the manifest must name only valid objects");
     s.run_cases(
         "read_faults",
         s.scale(400, 60_000),
@@ -1218,7 +1275,7 @@ fn main() {
     s.describe_check("interleave", "compact() || flush(): every interleaving of the two tasks' store calls (depth-first over the step scheduler's choice points)");
     s.run_cases(
         "interleave",
-        s.scale(600, 100_000),
+        s.scale(400, 60_000),
         || {
             (layout(2, 3, 4), proptest::collection::vec(delta_spec(), 1..4)).prop_map(|(mut layout, batch)| {
                 layout.checkpoint_prefix = 0;
@@ -1226,6 +1283,7 @@ fn main() {
                     layout,
                     batch,
                     schedule: None,
+                    flush_fault: None,
                 }
             })
         },
@@ -1240,11 +1298,18 @@ fn main() {
                 layout(2, 6, 5),
                 proptest::collection::vec(delta_spec(), 1..4),
                 proptest::collection::vec(any::<bool>(), 40),
+                prop_oneof![
+                    2 => Just(None),
+                    2 => Just(Some(Fault::Fail)),
+                    1 => Just(Some(Fault::CorruptGet(500))),
+                    1 => Just(Some(Fault::TruncateGet(500))),
+                ],
             )
-                .prop_map(|(layout, batch, word)| Inter {
+                .prop_map(|(layout, batch, word, flush_fault)| Inter {
                     layout,
                     batch,
                     schedule: Some(word),
+                    flush_fault,
                 })
         },
         check_inter,
